@@ -67,6 +67,7 @@ type pfRef struct {
 	Ce int    `json:"ce"`
 	Im bool   `json:"im"`
 	Lh int    `json:"lh"`
+	Nm int    `json:"nm"` // 0 nodes as proven, 1 last node dropped, 2 first node appended again
 }
 
 type rndRecipe struct {
@@ -265,6 +266,11 @@ func (w *world) pbProof(pr pfRef) (*nmt_pb.Proof, error) {
 		nodes, err := w.nodes(proofKey{pr.Q, pr.Ax, pr.I, pr.S, pr.E})
 		if err != nil {
 			return nil, err
+		}
+		if len(nodes) > 0 && pr.Nm == 1 {
+			nodes = nodes[:len(nodes)-1]
+		} else if len(nodes) > 0 && pr.Nm == 2 {
+			nodes = append(append([][]byte{}, nodes...), nodes[0])
 		}
 		out := &nmt_pb.Proof{Start: int64(pr.Cs), End: int64(pr.Ce), Nodes: nodes, IsMaxNamespaceIgnored: pr.Im}
 		if pr.Lh > 0 {
@@ -714,7 +720,7 @@ func stepSignature(steps json.RawMessage) string {
 }
 
 type stats struct {
-	cases, accepted, rejected, honest, honestProducerChecked, benignIdentical, panics, producerAnswers atomic.Int64
+	cases, accepted, rejected, honest, honestProducerChecked, benignIdentical, panics, producerAnswers, honestRejected atomic.Int64
 	acceptedForged                                                                 atomic.Int64
 	perKind                                                                        sync.Map
 }
@@ -815,6 +821,7 @@ func TestDriver(t *testing.T) {
 	rep.Count("honest_identical_to_producers", st.honestProducerChecked.Load())
 	rep.Count("forged_identical_to_honest_bytes", st.benignIdentical.Load())
 	rep.Count("producer_answers_verified", st.producerAnswers.Load())
+	rep.Count("honest_rejected", st.honestRejected.Load())
 	rep.Count("real_panics", st.panics.Load())
 	rep.Count("byte_mutations_sampled", mutations)
 	for k, c := range kindCount {
@@ -916,11 +923,14 @@ func runCase(rep *vh.Report, prop string, tc *tcase, st *stats, kindCount map[st
 		for codec, set := range prod {
 			for _, data := range set {
 				v := realVerify(tc.Req, sq.Roots, encoding{codec, data})
-				if !v.accepted || !sameShares(v.data, want) {
-					rep.Violate(fmt.Sprintf("%s/%s/honest-producer-rejected", prop, tc.Req.K),
-						fmt.Sprintf("an answer of the repository's producers for %+v (w=%d ns=%v, codec %s) does not verify / differs from the committed shares: %s",
-							tc.Req, tc.W, tc.Ns, codec, v.err),
+				if v.accepted && !sameShares(v.data, want) {
+					rep.Violate(fmt.Sprintf("%s/%s/producer-answer-accepted-with-wrong-shares", prop, tc.Req.K),
+						fmt.Sprintf("an answer of the repository's producers for %+v (w=%d ns=%v, codec %s) verifies but exposes shares that differ from the committed ones",
+							tc.Req, tc.W, tc.Ns, codec),
 						map[string]any{"case": tc, "codec": codec, "seed": vh.Seed()})
+				} else if !v.accepted {
+					rep.Inconclusivef("an answer of the repository's producers for %+v (w=%d ns=%v, codec %s) is rejected by the real verifier: %s", tc.Req, tc.W, tc.Ns, codec, v.err)
+					st.honestRejected.Add(1)
 				}
 			}
 			if (tc.Req.K == "nd" || tc.Req.K == "rnd") && len(set) > 1 {
@@ -955,8 +965,10 @@ func runCase(rep *vh.Report, prop string, tc *tcase, st *stats, kindCount map[st
 		// (iii) honest responses verify, and are what the real producers return
 		if tc.Hon {
 			if !v.accepted {
-				rep.Violate(fmt.Sprintf("%s/%s/honest-rejected", prop, tc.Req.K),
-					fmt.Sprintf("the honest response for %+v (w=%d) was rejected by the real verifier: %s", tc.Req, tc.W, v.err), replay)
+				// C01 / C02 are soundness statements: refusing an honest answer does not violate them, but
+				// it makes every verdict of this run vacuous and contradicts the model (Complete)
+				rep.Inconclusivef("the honest response for %+v (w=%d ns=%v, codec %s) was REJECTED by the real verifier: %s", tc.Req, tc.W, tc.Ns, enc.codec, v.err)
+				st.honestRejected.Add(1)
 				continue
 			}
 			if prod != nil {
